@@ -16,19 +16,20 @@ physical operator.  Oracles (reference model mc/refmodels/boltzmann.py, log spac
  structure  diagonal (<= 1e-10) in the defining basis, nothing outside the band (thermal ones)
  ratio      populations in the defining basis = Boltzmann populations of the diagonal
             energies there, reference computed in log space (cannot underflow):
-            |p - p_ref| <= 1e-10 + p_ref*expm1(1e-9 + 1e-6*(x_a+<x>))
+            |p - p_ref| <= 1e-10 + p_ref*expm1(1e-9 + 1e-6*(x_a+<x>) + 128*eps*max|H|/kT)
             (x = (E-Emin)/kT; the 1e-6 term is the admitted relative uncertainty of k_B,
             the library hard-codes a CODATA-2010 value 5.8e-8 away from scipy's; the
             absolute 1e-10 is class R for numbers of scale 1: a state stored in a basis
-            other than its defining one carries ~1e-16 absolute rounding noise);
+            other than its defining one carries ~1e-16 absolute rounding noise; the last
+            term is the computed conditioning of populations w.r.t. energies that went
+            through a basis transformation, ~1e-10 at 10 K, smaller above);
             T = 0: everything on the lowest level (skipped -> support check when the
             lowest level is degenerate, where the statement fixes no split)
  same state for thermal_excited_state weak/strong and the molecular state the reference is
             the same operator for all three request contexts, and additionally
             |rho_ctx - rho_out| <= 1e-10 + expm1(128*eps*max|H|/kT) is checked directly
-            (class R plus the computed conditioning of populations w.r.t. energies that went
-            through a basis transformation; the second term is about 1e-10 at 10 K and smaller above); not at
-            T = 0 with a degenerate lowest level, where the state is not unique.
+            (class R plus the same conditioning term); not at T = 0 with a degenerate lowest
+            level, where the state is not unique.
 
 Defining basis: weak coupling -> eigenbasis of H (band = states >= Nb[0]); strong coupling
 -> site basis with site reorganisation energies subtracted (not subtracted when a
@@ -48,7 +49,7 @@ LEVEL = "model_checking"
 
 TOL_R = 1e-10          # class R
 TOL_PSD = 1e-12
-TOL_SIG = 1e-6         # recognising a *signature* of a known wrong state (not an oracle)
+TOL_SIG = 1e-4         # recognising a *signature* of a known wrong state (a label, not an oracle)
 
 # ----------------------------------------------------------------------------
 # alphabets
